@@ -67,7 +67,13 @@ func corpusFeatureFields(suffix string, n int) []*cField {
 			fld(p+"std", "bytes").ann("GetBytesEncoding", enumConst("BytesEncoding_BYTES_ENCODING_BASE64", 1)), fld(p+"plain", "bytes")}
 	case "_flatten.pb.go":
 		return []*cField{fld(p+"addr", "message").msg(cMessage("Addr", fld("street", "string"), fld("zip_code", "string"))).ann("IsFlattenField", VBool{B: true}).ann("GetFlattenPrefix", constStr(p)),
-			fld(p+"geo", "message").msg(cMessage("Geo", fld("lat", "double"))).ann("IsFlattenField", VBool{B: true}), fld(p+"label", "string")}
+			fld(p+"geo", "message").msg(cMessage("Geo", fld("lat", "double"))).ann("IsFlattenField", VBool{B: true}), fld(p+"label", "string"),
+			// a flattened field declared `optional` (member of a synthetic oneof)
+			func() *cField {
+				f := fld(p+"dest", "message").msg(cMessage("Dest", fld("city", "string"))).ann("IsFlattenField", VBool{B: true}).ann("GetFlattenPrefix", constStr(p+"dest_"))
+				f.Opt = true
+				return f
+			}()}
 	}
 	return nil
 }
